@@ -150,10 +150,37 @@ func unwindAztecDraw(cc *checkCtx, compact bool, layers int) []oblRes {
 	return out
 }
 
+// unwindAztecAuto: automatic layer selection (userSpecifiedLayers == 0) with abstract stages,
+// unwound over the 33 candidate sizes; the path is cut at drawModeMessage. The obligations are
+// the preconditions of generateCheckWords and generateModeMessage on the merged selection
+// result: whatever size is chosen leaves room for at least one check word and its data word
+// count fits the mode message field (compact: <= 64 words).
+func unwindAztecAuto(cc *checkCtx) []oblRes {
+	label := "config/aztec.auto-selection"
+	c := exec.NewConc(cc.P)
+	c.X.Driver = "azauto"
+	c.X.SplitLoopExits = true
+	err := c.Try(func() {
+		ref := "aztec.EncodeWithColor"
+		data := c.SymParam(ref, 0, "data")
+		pct := c.SymParam(ref, 1, "pct")
+		c.Assume(term.And(term.Le(term.I(0), c.Term(pct)), term.Le(c.Term(pct), term.I(1000))))
+		color := c.SymParam(ref, 3, "color")
+		_, e := c.CallRets(ref, data, pct, exec.IntV(0, c.ParamType(ref, 2)), color)
+		if e != nil && e.Error() != "aztec.EncodeWithColor does not return" {
+			panic(&exec.ExecError{Msg: e.Error()})
+		}
+	})
+	if err != nil {
+		return []oblRes{{Name: label + "/unwinding", Kind: "config", Proved: false, Output: err.Error()}}
+	}
+	return dischargeConc(cc, c, label)
+}
+
 var unwAztec = &Unwinder{
 	Name: "aztec",
 	Jobs: func(tier string) []string {
-		var jobs []string
+		jobs := []string{"auto"}
 		for l := 32; l >= 1; l-- {
 			jobs = append(jobs, fmt.Sprintf("full:%d", l))
 		}
@@ -164,6 +191,9 @@ var unwAztec = &Unwinder{
 	},
 	Run: func(c *checkCtx, job string) []oblRes {
 		var l int
+		if job == "auto" {
+			return unwindAztecAuto(c)
+		}
 		if _, err := fmt.Sscanf(job, "full:%d", &l); err == nil {
 			return unwindAztecDraw(c, false, l)
 		}
